@@ -40,8 +40,12 @@ import (
 func FetchRecord(ctx context.Context, r Resolver, fromDomain string) (policyDomain string, rec *Record, err error) {
 	policyDomain = fromDomain
 
+	// DNS and Public Suffix List know A-labels only while the header of an
+	// internationalized message is likely to have the U-label form.
+	lookupDomain := canonicalDomain(fromDomain)
+
 	// 1. Lookup using From Domain.
-	txts, err := r.LookupTXT(ctx, dns.FQDN("_dmarc."+fromDomain))
+	txts, err := r.LookupTXT(ctx, dns.FQDN("_dmarc."+lookupDomain))
 	if err != nil {
 		dnsErr, ok := err.(*net.DNSError)
 		if !ok || !dnsErr.IsNotFound {
@@ -54,8 +58,7 @@ func FetchRecord(ctx context.Context, r Resolver, fromDomain string) (policyDoma
 	records := filterRecords(txts)
 	if len(records) == 0 {
 		// No records or 'no such host', try orgDomain.
-		// Public Suffix List lookup is case-sensitive.
-		orgDomain, err := publicsuffix.EffectiveTLDPlusOne(strings.ToLower(fromDomain))
+		orgDomain, err := publicsuffix.EffectiveTLDPlusOne(lookupDomain)
 		if err != nil {
 			return "", nil, err
 		}
@@ -90,6 +93,19 @@ func filterRecords(txts []string) []string {
 		}
 	}
 	return records
+}
+
+// canonicalDomain returns the domain in the lower-case A-label form.
+func canonicalDomain(domain string) string {
+	uDomain, err := dns.ForLookup(domain)
+	if err != nil {
+		return strings.ToLower(domain)
+	}
+	aDomain, err := dns.SelectIDNA(false, uDomain)
+	if err != nil {
+		return uDomain
+	}
+	return aDomain
 }
 
 type EvalResult struct {
@@ -208,13 +224,14 @@ func EvaluateAlignment(fromDomain string, record *Record, results []authres.Resu
 }
 
 func isAligned(fromDomain, authDomain string, mode AlignmentMode) bool {
-	if mode == dmarc.AlignmentStrict {
-		return strings.EqualFold(fromDomain, authDomain)
-	}
+	// Public Suffix List lookup is case-sensitive, the domain can be
+	// written using U-labels or A-labels.
+	fromDomain = canonicalDomain(fromDomain)
+	authDomain = canonicalDomain(authDomain)
 
-	// Public Suffix List lookup is case-sensitive.
-	fromDomain = strings.ToLower(fromDomain)
-	authDomain = strings.ToLower(authDomain)
+	if mode == dmarc.AlignmentStrict {
+		return fromDomain == authDomain
+	}
 
 	tld, _ := publicsuffix.PublicSuffix(fromDomain)
 	if strings.EqualFold(fromDomain, tld) {
